@@ -2,6 +2,7 @@ import CwMt.Proofs.Engine
 import CwMt.Proofs.EngineObs
 import CwMt.Proofs.EngineTx
 import CwMt.Proofs.TxSites
+import CwMt.Proofs.EngineBig
 /-
   C02 — A failed sub-message leaves no trace; caught only if reply_on says so.
   Model: `executeSubmsg`, `processResponse`, `reply` of CwMt/Model/Engine.lean. All statements hold
@@ -137,5 +138,161 @@ entry points, once around every sub-message (with both `reply` calls outside, on
 and once around every contract call (the querier reading the storage beneath). -/
 theorem tx_sites_as_modelled : Gen.Tx.sites = expectedTxSites :=
   TxSites.sites_as_modelled
+
+/-! ### final-state specification: fuel-free, trace-free judgements and their compositional rules
+
+`Exec / Proc / Sub / Rep cfg blk … o` (CwMt/Model/EngineBig.lean): "this run terminates with outcome `o`". The
+rules below characterise them for message trees of arbitrary depth; each is an `iff`, so they can be read in both
+directions (what a given tree does, and what must have happened for a given outcome). In particular case (2) of
+`sub_rule` is the property's first sentence: after a failed sub-message the reply — and through `proc_cons` every
+later sibling — runs on `ch`, the state from before it. -/
+
+/-- the judgements are functional: a run has one outcome -/
+theorem exec_deterministic (cfg : Config E) (blk : Block) (ch : Chain E) (s : Addr) (m : Msg) (o₁ o₂ : Out E)
+    (h₁ : Exec cfg blk ch s m o₁) (h₂ : Exec cfg blk ch s m o₂) : o₁ = o₂ :=
+  EngineBig.exec_deterministic cfg blk ch s m o₁ o₂ h₁ h₂
+
+theorem sub_deterministic (cfg : Config E) (blk : Block) (ch : Chain E) (c : Addr) (sm : SubMsg) (o₁ o₂ : Out E)
+    (h₁ : Sub cfg blk ch c sm o₁) (h₂ : Sub cfg blk ch c sm o₂) : o₁ = o₂ :=
+  EngineBig.sub_deterministic cfg blk ch c sm o₁ o₂ h₁ h₂
+
+/-- the judgement does not depend on the ghost trace the run starts with -/
+theorem exec_any_trace (cfg : Config E) (blk : Block) (ch : Chain E) (s : Addr) (m : Msg) (o : Out E) (tr : Trace) :
+    Exec cfg blk ch s m o ↔ (o ≠ .outOfFuel ∧ ∃ fuel, (execute cfg blk fuel ch s m tr).1 = o) :=
+  EngineBig.exec_any_trace cfg blk ch s m o tr
+
+/-- no sub-messages left: the accumulated response and the current state -/
+theorem proc_nil (cfg : Config E) (blk : Block) (ch : Chain E) (c : Addr) (resp : AppResponse) (o : Out E) :
+    Proc cfg blk ch c resp [] o ↔ o = .ok (resp, ch) :=
+  EngineBig.proc_nil cfg blk ch c resp o
+
+/-- siblings: the first sub-message (with its reply) runs on `ch`; if it ends `ok` with state `ch₁`, the rest runs
+on `ch₁` with its events appended and its data (if any) replacing the data so far; otherwise its outcome is the
+outcome of the whole list -/
+theorem proc_cons (cfg : Config E) (blk : Block) (ch : Chain E) (c : Addr) (resp : AppResponse) (sm : SubMsg)
+    (rest : List SubMsg) (o : Out E) :
+    Proc cfg blk ch c resp (sm :: rest) o ↔
+      ∃ o₁, Sub cfg blk ch c sm o₁ ∧
+        (match o₁ with
+         | .ok (sr, ch₁) =>
+           Proc cfg blk ch₁ c { events := resp.events ++ sr.events, data := sr.data.orElse fun _ => resp.data } rest o
+         | other => o = other) :=
+  EngineBig.proc_cons cfg blk ch c resp sm rest o
+
+/-- one sub-message: (1) it succeeded with `r`, state `ch₁`: the reply (if wanted) runs on `ch₁` and decides; without
+a reply its data is dropped; (2) it failed: the reply (if wanted) runs on `ch` — the state before the sub-message —
+and decides, otherwise the failure is the outcome; (3) it panicked. -/
+theorem sub_rule (cfg : Config E) (blk : Block) (ch : Chain E) (c : Addr) (sm : SubMsg) (o : Out E) :
+    Sub cfg blk ch c sm o ↔
+      ((∃ r ch₁, Exec cfg blk ch c sm.msg (.ok (r, ch₁)) ∧
+          ((wantsReplyOnOk sm.replyOn = true ∧
+              ∃ o', Rep cfg blk ch₁ c ⟨sm.id, sm.payload, .ok r.events r.data⟩ o' ∧ o = mergeReply r o') ∨
+           (wantsReplyOnOk sm.replyOn = false ∧ o = .ok ({ r with data := none }, ch₁)))) ∨
+       (Exec cfg blk ch c sm.msg .err ∧
+          ((wantsReplyOnErr sm.replyOn = true ∧ Rep cfg blk ch c ⟨sm.id, sm.payload, .err⟩ o) ∨
+           (wantsReplyOnErr sm.replyOn = false ∧ o = .err))) ∨
+       (Exec cfg blk ch c sm.msg .panic ∧ o = .panic)) :=
+  EngineBig.sub_rule cfg blk ch c sm o
+
+/-- the reply handler: the contract call on `ch`, then its own sub-messages -/
+theorem rep_rule (cfg : Config E) (blk : Block) (ch : Chain E) (c : Addr) (rp : Reply) (o : Out E) :
+    Rep cfg blk ch c rp o ↔
+      (match (callContract cfg blk ch c (.reply rp) []).1 with
+       | .ok (resp, ch₁) =>
+         Proc cfg blk ch₁ c (buildAppResponse c (replyEvent c rp) resp).1 (buildAppResponse c (replyEvent c rp) resp).2 o
+       | .err => o = .err
+       | .panic => o = .panic
+       | .outOfFuel => False) :=
+  EngineBig.rep_rule cfg blk ch c rp o
+
+/-- `WasmMsg::Execute`: funds first, then the contract on the state with the funds moved, then its sub-messages;
+the data of the final response is wrapped in the execute-response encoding -/
+theorem exec_wasm_execute (cfg : Config E) (blk : Block) (ch : Chain E) (s : Addr) (contract : String) (m : Val)
+    (funds : Coins) (o : Out E) :
+    Exec cfg blk ch s (.wasmExecute contract m funds) o ↔
+      (if cfg.validAddr contract = false then o = .err else
+       match sendFunds ch s contract funds with
+       | .ok ch₁ =>
+         (match (callContract cfg blk ch₁ contract (.execute ⟨s, funds⟩ m) []).1 with
+          | .ok (resp, ch₂) =>
+            ∃ o', Proc cfg blk ch₂ contract
+                (buildAppResponse contract { ty := "execute", attrs := [contractAttr contract] } resp).1
+                (buildAppResponse contract { ty := "execute", attrs := [contractAttr contract] } resp).2 o' ∧
+              o = (match o' with
+                   | .ok (r, ch₃) => .ok ({ r with data := r.data.map encodeExecuteResponse }, ch₃)
+                   | other => other)
+          | .err => o = .err
+          | .panic => o = .panic
+          | .outOfFuel => False)
+       | .err => o = .err
+       | .panic => o = .panic
+       | .outOfFuel => False) :=
+  EngineBig.exec_wasm_execute cfg blk ch s contract m funds o
+
+/-- bank messages, admin changes and module messages do not recurse: their outcome is the module's -/
+theorem exec_bank (cfg : Config E) (blk : Block) (ch : Chain E) (s : Addr) (to : String) (amount : Coins) (o : Out E) :
+    Exec cfg blk ch s (.bankSend to amount) o ↔ (o = bankExecute ch s (.bankSend to amount) ∧ o ≠ .outOfFuel) :=
+  EngineBig.exec_bank cfg blk ch s to amount o
+
+/-- `WasmMsg::Instantiate(2)`: register, move the funds to the new address, run `instantiate` there, then its
+sub-messages; the data is always the instantiate-response encoding of the new address and the final data -/
+theorem exec_wasm_instantiate (cfg : Config E) (blk : Block) (ch : Chain E) (s : Addr) (admin : Option String)
+    (codeId : Nat) (m : Val) (funds : Coins) (label : String) (salt : Option Val) (o : Out E) :
+    Exec cfg blk ch s (.wasmInstantiate admin codeId m funds label salt) o ↔
+      (if label.isEmpty = true then o = .err else
+       match registerContract cfg ch codeId s admin label blk.height salt with
+       | .ok (addr, ch₀) =>
+         (match sendFunds ch₀ s addr funds with
+          | .ok ch₁ =>
+            (match (callContract cfg blk ch₁ addr (.instantiate ⟨s, funds⟩ m) []).1 with
+             | .ok (resp, ch₂) =>
+               ∃ o', Proc cfg blk ch₂ addr
+                   (buildAppResponse addr { ty := "instantiate", attrs := [contractAttr addr, ⟨"code_id", toString codeId⟩] } resp).1
+                   (buildAppResponse addr { ty := "instantiate", attrs := [contractAttr addr, ⟨"code_id", toString codeId⟩] } resp).2 o' ∧
+                 o = (match o' with
+                      | .ok (r, ch₃) => .ok ({ r with data := some (encodeInstantiateResponse addr (r.data.getD [])) }, ch₃)
+                      | other => other)
+             | .err => o = .err
+             | .panic => o = .panic
+             | .outOfFuel => False)
+          | .err => o = .err
+          | .panic => o = .panic
+          | .outOfFuel => False)
+       | .err => o = .err
+       | .panic => o = .panic
+       | .outOfFuel => False) :=
+  EngineBig.exec_wasm_instantiate cfg blk ch s admin codeId m funds label salt o
+
+/-- `WasmMsg::Migrate`: checks, then the new code id is recorded, then `migrate` of the NEW code runs on that state,
+then its sub-messages; data wrapped as for execute -/
+theorem exec_wasm_migrate (cfg : Config E) (blk : Block) (ch : Chain E) (s : Addr) (contract : String) (newCodeId : Nat)
+    (m : Val) (o : Out E) :
+    Exec cfg blk ch s (.wasmMigrate contract newCodeId m) o ↔
+      (if cfg.validAddr contract = false then o = .err else
+       if codeKnown cfg newCodeId = false then o = .err else
+       match ch.contracts.get? contract with
+       | none => o = .err
+       | some cd =>
+         if cd.admin ≠ some s then o = .err else
+         match (callContract cfg blk { ch with contracts := ch.contracts.set contract { cd with codeId := newCodeId } }
+                  contract (.migrate m) []).1 with
+         | .ok (resp, ch₂) =>
+           ∃ o', Proc cfg blk ch₂ contract
+               (buildAppResponse contract { ty := "migrate", attrs := [contractAttr contract, ⟨"code_id", toString newCodeId⟩] } resp).1
+               (buildAppResponse contract { ty := "migrate", attrs := [contractAttr contract, ⟨"code_id", toString newCodeId⟩] } resp).2 o' ∧
+             o = (match o' with
+                  | .ok (r, ch₃) => .ok ({ r with data := r.data.map encodeExecuteResponse }, ch₃)
+                  | other => other)
+         | .err => o = .err
+         | .panic => o = .panic
+         | .outOfFuel => False) :=
+  EngineBig.exec_wasm_migrate cfg blk ch s contract newCodeId m o
+
+/-- the entry point `App::execute_multi` in terms of the judgement: it persists exactly the state of a terminating
+successful run of all messages and nothing otherwise (given enough fuel) -/
+theorem app_execute_single (cfg : Config E) (blk : Block) (fuel : Nat) (ch : Chain E) (s : Addr) (m : Msg)
+    (r : AppResponse) (ch' : Chain E) (tr : Trace)
+    (h : App.execute cfg blk fuel ch s m = (.ok r, ch', tr)) : Exec cfg blk ch s m (.ok (r, ch')) :=
+  EngineBig.app_execute_single cfg blk fuel ch s m r ch' tr h
 
 end CwMt.C02
